@@ -12,5 +12,8 @@ import SlugModel.Lemmas.TrEq_isDirectory
 import SlugModel.Lemmas.TrEq_isTypeX
 import SlugModel.Lemmas.TrEq_isRegular
 import SlugModel.Lemmas.TrEq_newUnpackInfo
+import SlugModel.Lemmas.TrEq_finalSourceAddr
+import SlugModel.Lemmas.TrEq_validSubPath
+import SlugModel.Lemmas.TrEq_readRules
 /-! All translation equalities (one file per function, so that a function that changes breaks only
 the obligations stated over it). -/
